@@ -2,7 +2,11 @@
 
 package xlsx
 
-import "strings"
+import (
+	"strings"
+
+	"github.com/tsawler/tabula/rag"
+)
 
 // H_C17_renderings: tab-separated text has cell (r,c) in line r, field c; the table built from the sheet
 // keeps every cell at its address relative to the content bounds; a merged region shows its value at the
@@ -88,5 +92,37 @@ func H_C17_renderings() {
 	md := tbl.ToMarkdown()
 	mdLines := strings.Split(strings.TrimRight(md, "\n"), "\n")
 	vAssert("markdown-rows", len(mdLines) == len(grid)+1)
+	vReach("end")
+}
+
+// H_C15_xlsx_heading_options: the sheet name is a level-2 heading shifted by the configured offset and capped.
+//
+//symgo:harness prop=C15 kernel=K3e-xlsx-heading-options
+//symgo:desc reader with one 1x2 sheet named "Data"; MarkdownWithRAGOptions with HeadingLevelOffset in {-2, 0, 1, 7} and MaxHeadingLevel in {1, 2, 6} (enumerated), no front matter or TOC: exactly one ATX heading line, "#" x clamp(2 + offset, 1, max) + " Data"
+func H_C15_xlsx_heading_options() {
+	off := []int{-2, 0, 1, 7}[vAnyIntIn(0, 3)]
+	max := []int{1, 2, 6}[vAnyIntIn(0, 2)]
+	sheet := &Sheet{Name: "Data", Rows: [][]Cell{{{Value: "a", Type: CellTypeString, MergeRows: 1, MergeCols: 1}, {Value: "b", Type: CellTypeString, Col: 1, MergeRows: 1, MergeCols: 1}}}}
+	r := &Reader{sheets: []*Sheet{sheet}}
+	opts := rag.DefaultMarkdownOptions()
+	opts.IncludeMetadata, opts.IncludeTableOfContents = false, false
+	opts.HeadingLevelOffset, opts.MaxHeadingLevel = off, max
+	md, err := r.MarkdownWithRAGOptions(ExtractOptions{}, opts)
+	vAssert("markdown-no-error", err == nil)
+	want := 2 + off
+	if want < 1 {
+		want = 1
+	}
+	if want > max {
+		want = max
+	}
+	n := 0
+	for _, ln := range strings.Split(md, "\n") {
+		if strings.HasPrefix(ln, "#") {
+			n++
+			vAssert("heading-level-is-shifted-and-capped", ln == strings.Repeat("#", want)+" Data")
+		}
+	}
+	vAssert("exactly-one-heading-line", n == 1)
 	vReach("end")
 }
